@@ -560,12 +560,30 @@ func rulesC10(p *Prog, r *Report) {
 	r.Rule("R10.4", "a restart re-sets every price field the auction start derives from the oracle price (and the end time)", 3)
 	{
 		oracleDerived := func(v ssa.Value) bool {
-			for _, o := range p.DeepOrigins(v) {
-				if o.Kind == "call" && p.callIs(o.Call, "GetTwa", "CalcAssetPrice", "GetLatestPrice") {
-					return true
+			found := false
+			seen := map[ssa.Value]bool{}
+			var rec func(v ssa.Value, d int)
+			rec = func(v ssa.Value, d int) {
+				if v == nil || seen[v] || d > 12 || found {
+					return
+				}
+				seen[v] = true
+				for _, o := range p.DeepOrigins(v) {
+					if o.Kind != "call" {
+						continue
+					}
+					if p.callIs(o.Call, "GetTwa", "CalcAssetPrice", "GetLatestPrice") {
+						found = true
+						return
+					}
+					// price helpers (GetCollalteralTokenInitialPrice, getOutflowTokenInitialPrice ...): through their arguments
+					for _, a := range o.Call.Call.Args {
+						rec(a, d+1)
+					}
 				}
 			}
-			return false
+			rec(v, 0)
+			return found
 		}
 		fieldsStored := func(fn *ssa.Function, typ string, onlyOracle bool) map[string]bool {
 			out := map[string]bool{}
